@@ -200,6 +200,14 @@ func (d *duplexHTTPCall) CloseRead() error {
 		// Reading the rest of the body failed, but the body still has to be
 		// closed or the transport never releases the stream.
 		_ = d.response.Body.Close()
+		if errors.Is(d.getError(), io.EOF) {
+			// Receive has already seen the clean end of the response (Connect and
+			// gRPC-Web carry it in the body, ahead of the HTTP stream's own end).
+			// What fails now is the echo of SetError closing a request side that
+			// was still open: the transport resets the stream, and that can
+			// overtake the response's END_STREAM. Nothing was lost.
+			return nil
+		}
 		if ctxErr := d.ctx.Err(); ctxErr != nil {
 			// As in Read: the context's end is why the stream broke.
 			err = ctxErr
